@@ -39,6 +39,7 @@ func TestWorker(t *testing.T) {
 	}
 	out := bufio.NewWriterSize(os.Stdout, 1<<16)
 	defer out.Flush()
+	props.Tick = func() { progress.Add(1) }
 	switch job.Mode {
 	case "explore":
 		go watchdog(out)
